@@ -103,6 +103,15 @@ def gen_cases(rng, tier):
                 guesses.insert(rng.randint(0, len(guesses)), {"target": key, "tkind": "horizon", "form": "const",
                                                               "kind": "const", "val": val})
         cases.append({"spec": spec, "guesses": guesses, "seed": rng.getrandbits(32)})
+    for i in range(18 if tier == "quick" else 240):
+        G_ = [[ocpgen.rnd(rng, -2, 2) for _ in range(2)] for _ in range(2)]
+        sparse = rng.random() < 0.5
+        if sparse:
+            G_[rng.randrange(2)][rng.randrange(2)] = 0.0
+        cases.append({"kind": "shape", "cls": rng.choice(["MS", "SS", "DC"]), "N": rng.choice([1, 1, 2, 3]), "M": rng.choice([1, 2]),
+                      "G": G_, "sparse": sparse, "gu": [ocpgen.rnd(rng, -2, 2) for _ in range(2)],
+                      "gv": [ocpgen.rnd(rng, -2, 2) for _ in range(3)], "when": rng.choice(["before", "after"]),
+                      "seed": rng.getrandbits(32)})
     for i in range(14 if tier == "quick" else 200):
         cases.append({"kind": "spline", "N": rng.choice([2, 3, 4, 5]), "layout": rng.choice(["mixed", "mixed", "equal", "scalar"]),
                       "guess": [[ocpgen.rnd(rng, -2, 2), rng.choice([0.0, ocpgen.rnd(rng, -1, 1)])] for _ in range(2)],
@@ -336,6 +345,72 @@ def _compare_with(spec, guesses, ph, exp, res, where):
     return not res["violations"]
 
 
+def run_shape(case):
+    """Constants of a symbol's own shape (row- and matrix-valued symbols, dense or sparse values) start every node /
+    interval at that constant, for every N including N=1."""
+    import casadi as ca
+    import rockit
+    from ..obs import nlp
+    res = {"sig": "shape|%s|N%dM%d|%s" % (case["cls"], case["N"], case["M"], "sparse" if case["sparse"] else "dense"), "evals": 0,
+           "violations": [], "counters": {"quantities": 0, "nonzero_quantities": 0, "nlp_identity": 0, "post_transcription": 0}}
+    G = np.array(case["G"], dtype=float)
+    gu, gv = np.array(case["gu"], dtype=float).reshape(1, -1), np.array(case["gv"], dtype=float).reshape(1, -1)
+    try:
+        ocp = rockit.Ocp(t0=0, T=1.5)
+        X = ocp.state(2, 2)
+        u = ocp.control(1, 2)
+        v = ocp.variable(1, 3, grid="control")
+        ocp.set_der(X, -X + ca.sum2(u))
+        ocp.add_objective(ocp.at_tf(ca.sumsqr(X)) + ocp.sum(ca.sumsqr(u) + ca.sumsqr(v)))
+        gX = ca.sparsify(ca.DM(G)) if case["sparse"] else ca.DM(G)
+        if case["when"] == "before":
+            ocp.set_initial(X, gX)
+            ocp.set_initial(u, ca.DM(gu))
+            ocp.set_initial(v, ca.DM(gv))
+        if case["cls"] == "MS":
+            ocp.method(rockit.MultipleShooting(N=case["N"], M=case["M"], intg="rk"))
+        elif case["cls"] == "SS":
+            ocp.method(rockit.SingleShooting(N=case["N"], M=case["M"], intg="rk"))
+        else:
+            ocp.method(rockit.DirectCollocation(N=case["N"], M=case["M"], degree=2))
+        ocp.solver("ipopt", {"ipopt.print_level": 0, "print_time": False})
+        if case["when"] == "after":
+            C.call("transcribe(first)", lambda: ocp._transcribed)
+            for sym_, val_ in ((X, gX), (u, ca.DM(gu)), (v, ca.DM(gv))):
+                C.call("set_initial(after)", ocp.set_initial, sym_, val_)
+            res["counters"]["post_transcription"] += 1
+        view = C.call("transcribe", nlp.NlpView, ocp)
+        outs = [C.call("sample", ocp.sample, q_, grid="control")[1] for q_ in (X, u, v)]
+        F = ca.Function("s", [view.x, view.p], [ca.MX(o_) for o_ in outs])
+    except C.RockitRaised as e:
+        res["violations"].append(C.exc_violation(ID, e, "shape|%s|N%d" % (case["cls"], case["N"])))
+        return res
+    opti = view.opti
+    x0 = np.array(opti.debug.value(view.x, opti.initial())).reshape(-1)
+    sx, su, sv = [np.array(a_, dtype=float) for a_ in F(x0, view.p0)]
+    N = case["N"]
+    checks = [("state(2,2)", sx.reshape(2, -1), G, N + 1 if case["cls"] != "SS" else 1),
+              ("control(1,2)", su.reshape(1, -1), gu, N), ("variable(1,3,grid='control')", sv.reshape(1, -1), gv, N)]
+    for nm, arr, want, nn in checks:
+        m_ = want.shape[1]
+        for k in range(nn):
+            got = arr[:, k * m_:(k + 1) * m_]
+            res["evals"] += 1
+            res["counters"]["quantities"] += 1
+            res["counters"]["nonzero_quantities"] += 1
+            if got.shape != want.shape or np.max(np.abs(got - want)) > 1e-12:
+                res["violations"].append({
+                    "kind": "start-point", "mech": "C10|start-point|own-shape-constant|%s|%s" % (
+                        nm.split("(")[0], "N1" if N == 1 else "N>1"),
+                    "detail": "%s under %s (N=%d, guess given %s transcription, %s value): node/interval %d starts at %s, the "
+                              "guess is %s" % (nm, case["cls"], N, case["when"], "sparse" if case["sparse"] else "dense", k,
+                                               C.short(got), C.short(want))})
+                return res
+    res["nontrivial"] = True
+    res["sample"] = {"family": "own-shape constants", "cls": case["cls"], "N": N, "sparse": case["sparse"]}
+    return res
+
+
 def run_spline(case):
     """SplineMethod: constant and linear-in-time guesses for the head of a chain are reproduced exactly by the spline
     (coefficients at the Greville points reproduce linear functions), component by component of a vector state."""
@@ -407,6 +482,8 @@ def run_case(case):
     from . import engine
     if case.get("kind") == "spline":
         return run_spline(case)
+    if case.get("kind") == "shape":
+        return run_shape(case)
     spec = case["spec"]
     guesses = case["guesses"]
     forms = ",".join(sorted("%s:%s" % (g["tkind"], g["form"]) for g in guesses))
